@@ -200,11 +200,19 @@ def check_deletion(op, before, after):
                     bad.append("frame: %s: %r -> %r" % (k, b, a))
                 elif la is not None and sorted(la) != sorted(lb):
                     # the group itself may disappear, but only when nothing of it is left
-                    # (undecidable, hence accepted, when the group's detail was not fetched before the deletion)
                     tb = consumer_topics(before.get(("FX", c, g)))
+                    fu = parse_list(before.get(("FU", c, t)))
                     rest = {x for x in (tb or {}) if x != t}
                     if not (sorted(la) == _minus(lb, g) and not rest):
                         bad.append("frame: %s: %r -> %r" % (k, b, a))
+                    elif (tb is not None and t in tb) or (fu is not None and g in fu):
+                        pass        # its last topic was deleted: the group goes with it (the documented mechanism)
+                    elif tb is not None or fu is not None:
+                        # the bracket shows that the group did NOT consume the topic: a group without topics was unlisted by
+                        # deleting something that does not exist
+                        bad.append("known:C09:empty-group-foreign-topic-delete: group %d does not consume topic %d, has no topics, "
+                                   "and is dropped from %s: %r -> %r" % (g, t, k, b, a))
+                    # else: undecidable from this bracket (neither the group's detail nor the topic's consumer list was fetched)
             elif a != b:
                 bad.append("frame: %s: %r -> %r" % (k, b, a))
         else:  # DT
@@ -273,7 +281,7 @@ def _track_stored(op, i, cfg, st):
         c, g, t, p, ts = int(op[2]), int(op[3]), int(op[4]), int(op[5]), int(op[8])
         thr = threshold(cfg, int(op[1]))
         if (c in cfg["clusters"] and g not in cfg["rej"] and (c, t, p) in st["bpart"] and (c, g, t, p) not in st["seen"]
-                and -2**63 <= thr < 2**63 and ts >= thr and not (cfg["mode"] in ("allow", "both") and (g == 0 or g > 9))):
+                and -2**63 <= thr < 2**63 and ts >= thr and not (cfg["mode"].split("@")[0] in ("allow", "both", "edeny_allow") and (g == 0 or g > 9))):
             st["must"][(c, g)] = (i, t)
         st["seen"].add((c, g, t, p))
     elif k == "DT":
@@ -297,6 +305,7 @@ def oracle_c09(line, impl_line):
     commits = {}     # (cluster, group) -> [min ts, max ts] of the commits sent so far
     found = {}       # (cluster, group) -> index of the last FetchConsumer that reported it, reset by deletions touching it
     stored = {"bpart": set(), "seen": set(), "must": {}}
+    foundts = {}     # (cluster, group) -> newest commit timestamp visible in the reply recorded in `found`
     for i, op in enumerate(ops):
         k = op[0]
         now = int(op[1])
@@ -312,7 +321,11 @@ def oracle_c09(line, impl_line):
             if before is None or after is None:
                 continue
             for d in check_deletion(op, before, after):
-                out.append((i, "delete", "%s: %s" % (" ".join(op), d)))
+                if d.startswith("known:"):
+                    key, _, msg = d[6:].partition(": ")
+                    out.append((i, "known:" + key, "%s: %s" % (" ".join(op), msg)))
+                else:
+                    out.append((i, "delete", "%s: %s" % (" ".join(op), d)))
         elif k == "C":
             ts = int(op[8])
             if not (-2**63 <= threshold(cfg, now) < 2**63) or ts >= threshold(cfg, now):
@@ -338,7 +351,8 @@ def oracle_c09(line, impl_line):
             # what is known about the group's commits from the inputs (book-keeping below, one pass over the history)
             tss = commits.get((c, g), [])
             last_found = found.get((c, g))
-            if tss and tss[1] < thr and replies[i] != "NIL":
+            # (thr > 0: a group created by an owner update has lastCommit 0, which is only "older" for a positive cut-off)
+            if tss and tss[1] < thr and thr > 0 and replies[i] != "NIL":
                 out.append((i, "expiry", "%s: every commit of the group is older than the expiry time (newest %d < %d) but it is reported: %r"
                             % (" ".join(op), tss[1], thr, replies[i][:200])))
             if tss and tss[0] >= thr and last_found is not None and replies[i] == "NIL":
@@ -351,8 +365,21 @@ def oracle_c09(line, impl_line):
                     out.append((i, "expiry", "%s: the commit at op %d (%s) is not older than the expiry time (expire-group %d, cutoff %d) and "
                                 "nothing else could drop it, yet the group / its topic %d is not reported: %r"
                                 % (" ".join(op), m[0], " ".join(ops[m[0]]), cfg["expire"], thr, m[1], replies[i][:160])))
-            if replies[i] != "NIL":
+            vis = foundts.get((c, g))
+            if (replies[i] == "NIL" and last_found is not None and tss and tss[0] < thr and vis is not None and vis >= thr):
+                # the group was reported at op last_found with a stored commit that is still inside the expiry time, nothing deleted
+                # it since, and it is now purged: commits on both sides of the cut-off with lastCommit pointing at an old one
+                out.append((i, "known:C09:lastcommit-not-monotone",
+                            "%s: the group stores a commit inside the expiry time (timestamp %d >= cut-off %d, reported at op %d) but is "
+                            "reported as not found; commits of the group lie on both sides of the cut-off (oldest sent %d)"
+                            % (" ".join(op), vis, thr, last_found, tss[0])))
+            if replies[i] == "NIL":
+                found.pop((c, g), None)         # absent from here on: later not-found replies say nothing new
+                foundts.pop((c, g), None)
+            else:
                 found[(c, g)] = i
+                ent = [e[2] for parts in SC.parse_consumer(replies[i]).values() for pt in parts for e in pt["offsets"] if e is not None]
+                foundts[(c, g)] = max(ent) if ent else None
             # the read itself: a run of non-purging fetches before, any run after
             rb, ra = fetch_run_before(ops, i), fetch_run_after(ops, i)
             if not len(rb) or not len(ra) or any(ops[j][0] == "FX" for j in rb):
@@ -381,11 +408,63 @@ def oracle_c09(line, impl_line):
 # the C10 (storage) oracle
 # ---------------------------------------------------------------------------------------------------------------------
 
+def list_verdicts(cfg, g):
+    """(a_set, a_m, d_set, d_m) for group id g: is an allowlist / denylist configured and does its pattern match the group's name.
+    The pattern texts are those the probe builds from the header (probes/storage, `shistory`); an empty pattern text is `no list`
+    (Configure tests != ""); matching is Python's re on these alternation-only patterns (same semantics as Go's regexp)."""
+    import re
+    lists = cfg["mode"].split("@")[0]
+    rej = set(cfg["rej"])
+    denied = ["g%d" % x for x in range(10) if x in rej]
+    allowed = ["g%d" % x for x in range(10) if x not in rej]
+    deny_pat = "^(" + "|".join(denied) + ")$"
+    allow_pat = "^(" + "|".join(allowed) + ")$"
+    a_pat = d_pat = ""
+    if lists == "deny":
+        d_pat = deny_pat if denied else ""
+    elif lists == "allow":
+        a_pat = allow_pat
+    elif lists == "both":
+        a_pat, d_pat = allow_pat, (deny_pat if denied else "")
+    elif lists == "wide":
+        a_pat, d_pat = "^(g[0-9]+)?$", (deny_pat if denied else "")
+    elif lists == "edeny_allow":
+        a_pat = allow_pat
+    elif lists == "eallow_deny":
+        d_pat = deny_pat if denied else ""
+    elif lists in ("edeny", "eallow", "eboth"):
+        pass
+    else:
+        raise ValueError("unknown list mode " + lists)
+    name = "" if g == 0 else "g%d" % g
+    a_set, d_set = a_pat != "", d_pat != ""
+    a_m = bool(a_set and re.search(a_pat, name))
+    d_m = bool(d_set and re.search(d_pat, name))
+    return a_set, a_m, d_set, d_m
+
+
+def storage_accept(a_set, a_m, d_set, d_m):
+    """StorageDelProofs.storage_accept, clause by clause (inmemory.go acceptConsumerGroup)"""
+    if a_set and not a_m:
+        return False
+    if d_set and d_m:
+        return False
+    return True
+
+
 def oracle_c10(line, impl_line):
     """A rejected group (header `rej`, turned into real regexps by the probe) must never be listed or reported."""
     head, ops = SC.split_history(line)
     cfg = parse_header(head)
-    rej = set(cfg["rej"])
+    acc = {}
+
+    class _Rej:
+        """rejected = storage_accept of the four list booleans is false (not the header's id set)"""
+        def __contains__(self, g):
+            if g not in acc:
+                acc[g] = storage_accept(*list_verdicts(cfg, g))
+            return not acc[g]
+    rej = _Rej()
     replies, _ = align(ops, impl_line)
     out = []
     for i, op in enumerate(ops):
@@ -635,6 +714,30 @@ def gen_delete(rng, i=0):
             w.pcount.pop((c, t), None)
             for key in [k for k in w.boff if k[0] == c and k[1] == t]:
                 del w.boff[key]
+        elif r >= 0.84 and r < 0.90 and not huge:
+            # the most recently appended commit is OLDER than the group's newest one: a fresh commit on one partition, then the
+            # first commit of another partition with an old (but not too old) timestamp; the clock then passes the old one only
+            cands = [(cc, t) for (cc, t), n in sorted(w.pcount.items()) if n >= 2 and cc in clusters]
+            if not cands:
+                continue
+            cc, t = rng.choice(cands)
+            g = rng.choice(groups)
+            free = [q for q in range(w.pcount[(cc, t)]) if (cc, g, t, q) not in w.order]
+            if not free:
+                continue
+            q = rng.choice(free)
+            p0 = rng.choice([x for x in range(w.pcount[(cc, t)]) if x != q])
+            d = rng.choice([1, 2, max(2, expire // 4)])
+            w.commit(cc, g, t, p=p0)                                   # newest commit: now
+            w.commit(cc, g, t, p=q, ts=(h.now - expire + d) * 1000)    # appended last, d seconds from being too old
+            w.fetch_all()
+            h.now += d + 1
+            w.fetch_lists()
+            h.add("FX", h.now, cc, g)
+            w.fetch_lists()
+            h.now += 1
+            w.fetch_all()
+            h.tags.add("lastcommit-backwards")
         elif r < 0.90:
             # expiry: jump the clock, refresh some groups, then ask
             w.fetch_all()
@@ -749,7 +852,7 @@ def gen_lists(rng, i=0):
     intervals = rng.choice([1, 2, 3, 10])
     expire = rng.choice([1000, 604800])
     clusters = rng.choice([[1], [1, 2]])
-    modes = ["deny", "allow", "both"] + (["wide"] if probe_supports_wide() else [])
+    modes = ["deny", "allow", "both"] + (["wide", "wide", "wide"] if probe_supports_wide() else [])
     if probe_supports_empty():
         modes += ["edeny", "eallow", "eboth", "edeny_allow", "eallow_deny"]
     mode = rng.choice(modes)
